@@ -19,6 +19,4 @@ func (p *Core) tokRefundForwarded(ci int, ps *PktState, why string) {}
 
 func (p *Core) genAttack() []sim.Op { return nil }
 
-func (p *Core) genRateAdmin() []sim.Op { return nil }
-
 func (p *Core) genGrant() []sim.Op { return nil }
